@@ -4,8 +4,8 @@ The harness owns the encoder, so the list of parts it was given is the oracle; n
 """
 
 BOUNDARIES = [b"b", b"boundary", b"----WebKitFormBoundary7MA4YWxkTrZu0gW", b"a-b", b"-", b"--", b"x y", b"'()+_,./:=?", b"B" * 70, b"0"]
-NAMES = ["f", "name with space", "n;x", "k=v", "naïve", "中文", "a,b", "x'y", " lead", "trail ", "", "file[]"]
-FILENAMES = ["fn.txt", "", "a;b.txt", "файл.bin", "sp ace.tar.gz", "x=y", "semi;colon"]
+NAMES = ["f", "name with space", "n;x", "k=v", "naïve", "中文", "a,b", "x'y", " lead", "trail ", "", "file[]", "a;b;c", ";;", "x;y=z;w"]
+FILENAMES = ["fn.txt", "", "a;b.txt", "файл.bin", "sp ace.tar.gz", "x=y", "semi;colon", "jan;feb;mar.csv", "a;b;c;d", "; filename=evil"]
 CTYPES = ["application/octet-stream", "text/plain; charset=x", None, "image/png"]
 
 
@@ -43,7 +43,7 @@ def gen_form(rng, max_parts=4, boundary=None):
         c = gen_content(rng, boundary, not isfile)
         parts.append({"name": rng.choice(NAMES), "filename": rng.choice(FILENAMES) if isfile else None, "content": c,
                       "ctype": rng.choice(CTYPES) if isfile else None,
-                      "extra": rng.random() < 0.3})
+                      "extra": rng.random() < 0.3, "fold": rng.random() < 0.15})
     return {"boundary": boundary, "parts": parts, "preamble": rng.choice([b"", b"", b"preamble", b"pre\r\namble"]),
             "epilogue": rng.choice([b"", b"", b"epilogue\r\n", b"\r\n"]), "pad": rng.choice([b"", b"", b" ", b" \t"])}
 
@@ -65,6 +65,9 @@ def encode(form):
             hs.append(b"Content-Type: " + p["ctype"].encode())
         if p.get("extra"):
             hs.insert(0, b"X-Extra: some value; with=stuff")
+        if p.get("fold"):
+            # RFC 2231 / RFC 822 folding: a header continued on the next line after a line break + space/tab
+            hs = [h.replace(b"; ", b";\r\n ", 1) if b"; " in h else h for h in hs]
         out += b"\r\n".join(hs) + b"\r\n\r\n"
         start = len(out)
         out += p["content"]
